@@ -310,7 +310,7 @@ fn sweep_many_types(cyc: &Cycle, rec: &Recorder, thorough: bool) -> Tally {
 /// every +-1 walk of the cumulative correction (length 1..=L) with records 28 days apart, crossed with transitions that sit
 /// on a record's time, one second before or one second after it (on the count scale), every assignment of the three positions
 fn sweep_leap_walks(cyc: &Cycle, rec: &Recorder, thorough: bool) -> Tally {
-    let max_len: u32 = if thorough { 7 } else { 4 };
+    let max_len: u32 = if thorough { 7 } else { 5 };
     let mut work = vec![];
     for len in 1..=max_len {
         for signs in 0..(1u32 << len) {
@@ -365,8 +365,8 @@ pub fn run(args: &Args) -> i32 {
     let cyc = Cycle::build();
     let thorough = args.thorough();
     let us = us_rule(&cyc);
-    let max_n: usize = if thorough { 1500 } else { 64 };
-    let all_seq_n: usize = if thorough { 10 } else { 6 };
+    let max_n: usize = if thorough { 1500 } else { 300 };
+    let all_seq_n: usize = if thorough { 10 } else { 8 };
     // work list: (n, layout, pattern code) ; pattern code < 3 => i mod (code+1) ; otherwise explicit base-3 sequence number
     let mut work: Vec<(usize, u8, u64, bool)> = vec![];
     for n in 0..=max_n {
@@ -401,7 +401,7 @@ pub fn run(args: &Args) -> i32 {
                 (0..n).map(|i| i % (code as usize + 1)).collect()
             };
             for leap_variant in 0..7u8 {
-                if explicit && n > 4 && leap_variant > 1 && !thorough {
+                if explicit && n > 6 && leap_variant > 1 && !thorough {
                     continue;
                 }
                 for rule_kind in 0..3u8 {
@@ -460,7 +460,7 @@ pub fn run(args: &Args) -> i32 {
     rec.sub("table", json!({"shapes": work.len(), "zones": total.zones, "zones_refused_as_model_predicts": total.rejected, "lookups": total.evals, "max_table_len": max_n, "all_index_sequences_up_to_len": all_seq_n}));
     rec.add(total.evals, total.nontrivial);
     rec.digest("table", total.digest);
-    rec.set_rule("zones: table length 0..=N x 3 time layouts (spaced, adjacent, i64 extremes) x type-index patterns (i mod k; all 3^n sequences for small n) x 7 leap tables x {no rule, fixed rule, DST rule}; zones with 256..513 (65537) local time types; every +-1 walk of the leap correction of length <= 4 (7) x transitions at record -1/0/+1; probes: every transition -3..+3, every leap record -2..+2, 0, i64 extremes; oracle: linear-scan zone model; DateTime::from_timespec fields vs model calendar; owned == borrowed. non-trivial = probes whose expected answer differs from that of the instant one second earlier");
+    rec.set_rule("zones: table length 0..=N x 3 time layouts (spaced, adjacent, i64 extremes) x type-index patterns (i mod k; all 3^n sequences for small n) x 7 leap tables x {no rule, fixed rule, DST rule}; zones with 256..513 (65537) local time types; every +-1 walk of the leap correction of length <= 5 (7) x transitions at record -1/0/+1; probes: every transition -3..+3, every leap record -2..+2, 0, i64 extremes; oracle: linear-scan zone model; DateTime::from_timespec fields vs model calendar; owned == borrowed. non-trivial = probes whose expected answer differs from that of the instant one second earlier");
     rec.set_exhaustive(true);
     rec.outcome("type");
     rec.outcome("NoAvailableLocalTimeType");
